@@ -139,7 +139,29 @@ func c06Judge(c c06Case, enc string) (keys []string, detail, class string) {
 	return keys, detail, class
 }
 
+var c06Memo = map[string][]c06Case{}
+
 func c06Replay(raw json.RawMessage) ([]string, string) {
+	get := func(t string) []c06Case {
+		if d, ok := c06Memo[t]; ok {
+			return d
+		}
+		m := 2
+		if t == "thorough" {
+			m = 3
+		}
+		c06Memo[t] = c06Docs(m)
+		return c06Memo[t]
+	}
+	nu := len(c06URIs)
+	if keys, detail, ok := liveReplay(raw, "C06", func(t string) int { return len(get(t)) * nu }, func(t string, j int) string {
+		c := get(t)[j/nu]
+		c.URI = j % nu
+		k, _, class := c06Judge(c, idp.RenderResponse(c06Spec(c)))
+		return sig(k, class)
+	}); ok {
+		return keys, detail
+	}
 	var c c06Case
 	if err := json.Unmarshal(raw, &c); err != nil {
 		return nil, err.Error()
@@ -162,12 +184,7 @@ func c06Lists() [][]int {
 	return out
 }
 
-func c06Run(r *mc.Run) {
-	maxR := 2
-	if r.Thorough() {
-		maxR = 3
-	}
-	r.Rule = fmt.Sprintf("every sequence of 0..%d AudienceRestrictions, each every ordered list of 0..2 audiences over a 6-value near-miss alphabet (exact, case, trailing slash, leading space, other, empty) x OneTimeUse x 5 ProxyRestriction shapes (full product up to 2 restrictions; at 3 restrictions at most one of OneTimeUse/Proxy deviates) x 3 configured audience URIs (exact, empty, upper-case); non-trivial = accepted genuine response whose warnings were compared; distinct = distinct (document, uri)", maxR)
+func c06Docs(maxR int) []c06Case {
 	lists := c06Lists()
 	var docs []c06Case
 	var rec func(prefix [][]int, depth int)
@@ -191,8 +208,32 @@ func c06Run(r *mc.Run) {
 		}
 	}
 	rec(nil, 0)
+	return docs
+}
+
+func c06Run(r *mc.Run) {
+	maxR := 2
+	if r.Thorough() {
+		maxR = 3
+	}
+	r.Rule = fmt.Sprintf("every sequence of 0..%d AudienceRestrictions, each every ordered list of 0..2 audiences over a 6-value near-miss alphabet (exact, case, trailing slash, leading space, other, empty) x OneTimeUse x 5 ProxyRestriction shapes (full product up to 2 restrictions; at 3 restrictions at most one of OneTimeUse/Proxy deviates) x 3 configured audience URIs (exact, empty, upper-case); non-trivial = accepted genuine response whose warnings were compared; distinct = distinct (document, uri)", maxR)
+	docs := c06Docs(maxR)
 	r.Set("documents", len(docs))
 	r.State(len(docs))
+	nu := len(c06URIs)
+	fresh := make([]string, len(docs)*nu)
+	defer func() {
+		stride := 4*nu + 1
+		if r.Thorough() {
+			stride = 64*nu + 1
+		}
+		livePass(r, len(fresh), stride, 90*time.Second, func(j int) string {
+			c := docs[j/nu]
+			c.URI = j % nu
+			keys, _, class := c06Judge(c, idp.RenderResponse(c06Spec(c)))
+			return sig(keys, class)
+		}, fresh)
+	}()
 	r.Par(len(docs), func(i int) {
 		d := docs[i]
 		enc := idp.RenderResponse(c06Spec(d))
@@ -200,6 +241,7 @@ func c06Run(r *mc.Run) {
 			c := d
 			c.URI = u
 			keys, detail, class := c06Judge(c, enc)
+			fresh[i*nu+u] = sig(keys, class)
 			r.Eval(1)
 			r.Transition(1)
 			r.Bucket(class)
